@@ -730,7 +730,7 @@ def _req_text(r):
     return out
 
 
-def harness_trouble(c, i):
+def is_trouble(c, i):
     """the server of a server-mode case did not come up in three attempts"""
     return i.startswith("(L (N 95))") or i.startswith("(L (N 93)")
 
